@@ -40,6 +40,8 @@
 #include <stdarg.h>
 #include <sys/syscall.h>
 #include <sys/mman.h>
+#include <fcntl.h>
+#include "hwloc/shmem.h"
 
 /* ------------------------------------------------------------------ */
 /* trace buffer                                                         */
@@ -84,6 +86,7 @@ static int errno_of_class(const char *s)
 /* ------------------------------------------------------------------ */
 /* the operating system, as far as binding goes: interposed             */
 static int os_intercept;                 /* 0: forward to the kernel (topology discovery) */
+static unsigned long real_aff0[64];      /* the real affinity of the process at start */
 static hwloc_bitmap_t os_aff;            /* what sched_getaffinity reports for the calling thread (pid 0) */
 static hwloc_bitmap_t os_affproc;        /* ... and for an explicit tid (per-thread queries of a process-wide get); NULL = same */
 enum { OC_SETAFF, OC_GETAFF, OC_SET_MEMPOLICY, OC_MBIND, OC_GET_MEMPOLICY, OC_MIGRATE, OC_MOVE, OC_GETCPU, OC_N };
@@ -328,6 +331,7 @@ int main(void)
   hk_rc[20] = hk_rc[21] = 1;
 #ifndef HWV_LIVE
   os_aff = hwloc_bitmap_alloc(); hwloc_bitmap_set_range(os_aff, 0, 15);
+  memset(real_aff0, 0, sizeof(real_aff0)); raw_syscall6(SYS_sched_getaffinity, 0, sizeof(real_aff0), (long)real_aff0, 0, 0, 0);
   os_mempol_mask = hwloc_bitmap_alloc();
 #endif
   if (posix_memalign((void **)&area, 4096, area_len)) return 2;
@@ -366,6 +370,39 @@ int main(void)
       os_intercept = 0;
 #endif
       continue; }
+    /* ---- derived topologies: the binding transcript then runs on the derivation ---- */
+    if ((!strcmp(cmd, "dup") || !strcmp(cmd, "adopt") || !strcmp(cmd, "xmlreload")) && t && loaded) {
+      hwloc_topology_t n = NULL; int rc = -1;
+      if (!strcmp(cmd, "dup")) rc = hwloc_topology_dup(&n, t);
+      else if (!strcmp(cmd, "adopt")) {
+        size_t len = 0; char path[] = "/tmp/hwv-c10-shm-XXXXXX"; int fd;
+        rc = hwloc_shmem_topology_get_length(t, &len, 0);
+        fd = rc ? -1 : mkstemp(path);
+        if (fd >= 0) {
+          void *addr; unlink(path);
+          if (ftruncate(fd, (off_t)len) < 0) rc = -1;
+          addr = mmap(NULL, len, PROT_NONE, MAP_PRIVATE | MAP_ANONYMOUS, -1, 0);
+          if (addr == MAP_FAILED) rc = -1; else munmap(addr, len);
+          if (!rc) rc = hwloc_shmem_topology_write(t, fd, 0, addr, len, 0);
+          if (!rc) rc = hwloc_shmem_topology_adopt(&n, fd, 0, addr, len, 0);
+          close(fd);
+        } else rc = -1;
+      } else { /* xmlreload <flags>: export to a buffer, load the buffer into a fresh handle */
+        char *buf = NULL; int blen = 0;
+        rc = hwloc_topology_export_xmlbuffer(t, &buf, &blen, 0);
+        if (!rc) {
+          hwloc_topology_init(&n);
+          rc = hwloc_topology_set_xmlbuffer(n, buf, blen);
+          if (!rc) rc = hwloc_topology_set_flags(n, strtoul(a1, NULL, 0));
+          if (!rc) rc = hwloc_topology_load(n);
+          if (rc) { hwloc_topology_destroy(n); n = NULL; }
+          hwloc_free_xmlbuffer(t, buf);
+        }
+      }
+      if (rc || !n) { printf("load rc=-1 errno=%s\n", hwv_errno_class(errno)); continue; }
+      hwloc_topology_destroy(t); t = n; hooks_mode = 0;
+      print_info(t); continue;
+    }
 #ifdef HWV_LIVE
     if (!strcmp(cmd, "affinity")) { /* raw view of the caller's affinity */
       hwloc_bitmap_t b = hwloc_bitmap_alloc(); raw_affinity(b);
@@ -389,6 +426,27 @@ int main(void)
       fputs(" before=", stdout); hwv_pset(stdout, b0); fputs(" after=", stdout); hwv_pset(stdout, b1);
       printf(" npu=%d\n", lr == 0 ? hwloc_get_nbobjs_by_type(t2, HWLOC_OBJ_PU) : -1);
       hwloc_topology_destroy(t2); hwloc_bitmap_free(b0); hwloc_bitmap_free(b1); continue;
+    }
+    if (!strcmp(cmd, "foreigndup")) { /* <cpu>: bind through a synthetic (foreign) topology, its duplicate and a duplicate of that */
+      hwloc_topology_t f, d1 = NULL, d2 = NULL, which[3]; const char *names[3] = { "orig", "dup", "dupdup" }; int k;
+      hwloc_topology_init(&f); hwloc_topology_set_synthetic(f, a2[0] ? a2 : "pu:64"); hwloc_topology_load(f);
+      hwloc_topology_dup(&d1, f); hwloc_topology_dup(&d2, d1);
+      which[0] = f; which[1] = d1; which[2] = d2;
+      for (k = 0; k < 3; k++) {
+        hwloc_bitmap_t b = hwloc_bitmap_alloc(), g = hwloc_bitmap_alloc(), r0 = hwloc_bitmap_alloc(), r1 = hwloc_bitmap_alloc(); int rs, rg;
+        hwloc_bitmap_only(b, (unsigned)atoi(a1));
+        raw_affinity(r0); rs = hwloc_set_cpubind(which[k], b, HWLOC_CPUBIND_THREAD); raw_affinity(r1);
+        rg = hwloc_get_cpubind(which[k], g, HWLOC_CPUBIND_THREAD);
+        printf("F which=%s cpu=%s this=%d set_rc=%d get_rc=%d get=", names[k], a1, hwloc_topology_is_thissystem(which[k]), rs, rg); hwv_pset(stdout, g);
+        fputs(" complete=", stdout); hwv_pset(stdout, hwloc_topology_get_complete_cpuset(which[k]));
+        fputs(" before=", stdout); hwv_pset(stdout, r0); fputs(" after=", stdout); hwv_pset(stdout, r1); fputc('\n', stdout);
+        if (!hwloc_bitmap_isequal(r0, r1)) { /* put the thread back */
+          cpu_set_t *m = CPU_ALLOC(4096); size_t sz = CPU_ALLOC_SIZE(4096); unsigned c; CPU_ZERO_S(sz, m);
+          hwloc_bitmap_foreach_begin(c, r0) CPU_SET_S(c, sz, m); hwloc_bitmap_foreach_end(); sched_setaffinity(0, sz, m); CPU_FREE(m);
+        }
+        hwloc_bitmap_free(b); hwloc_bitmap_free(g); hwloc_bitmap_free(r0); hwloc_bitmap_free(r1);
+      }
+      hwloc_topology_destroy(d2); hwloc_topology_destroy(d1); hwloc_topology_destroy(f); continue;
     }
     if (!strcmp(cmd, "threadload")) { /* <cpu> <flags>: load in a worker thread bound to that single PU */
       struct tl_job j; pthread_t th;
@@ -519,6 +577,16 @@ int main(void)
         } }
       else known = 0;
       if (!known) printf("unknown-command %s\n", line);
+#ifndef HWV_LIVE
+      { /* nothing of the above may have changed the REAL affinity of this process (everything is interposed) */
+        unsigned long now[64]; memset(now, 0, sizeof(now));
+        raw_syscall6(SYS_sched_getaffinity, 0, sizeof(now), (long)now, 0, 0, 0);
+        if (memcmp(now, real_aff0, sizeof(now))) {
+          printf("X real affinity changed by: %s\n", line);
+          raw_syscall6(SYS_sched_setaffinity, 0, sizeof(real_aff0), (long)real_aff0, 0, 0, 0);
+        }
+      }
+#endif
       hwloc_bitmap_free(out); if (in) hwloc_bitmap_free(in);
     }
   }
